@@ -212,10 +212,27 @@ def make_model(sysd, h, log=None):
     return M()
 
 
-def integrate_solver(which, sysd, N):
-    m = make_model(sysd, sysd['span'] / N)
+def integrate_solver(which, sysd, N, frac=0.0):
+    """through GenericModel.solve with the proposed step span / (N + frac): for frac > 0 the step does
+    not divide the interval, the solver takes N proposed steps and shortens the last one to end at tf"""
+    m = make_model(sysd, sysd['span'] / (N + frac))
     m.solve(sysd['span'], solverType=solver_type(which), minDtFrac=1e-12, maxDtFrac=1)
     return m.t, m.traj, m.steps
+
+
+def integrate_desolver(which, sysd, N, frac=0.0):
+    """the same through a bare DESolver (flat state, identity flatten functions)"""
+    _, So, _ = impl()
+    f = sysd['f']
+    h = sysd['span'] / (N + frac)
+    s = So.DESolver(solver_type(which), minDtFrac=1e-12, maxDtFrac=1)
+    s.setdXdtFunctions(lambda t, x: np.asarray(f(t, x), dtype=float), s.correctdXdtNotImplemented, lambda d: h,
+                       s.flattenXNotImplemented, s.unflattenXNotImplemented)
+    traj = []
+    s.setFunctions(postProcess=lambda t, x: (traj.append((t, np.asarray(x, dtype=float).copy())) or (x, False)))
+    tf = sysd['t0'] + sysd['span']
+    s.solve(sysd['t0'], sysd['y0'].copy(), tf)
+    return (traj[-1][0] if traj else sysd['t0']), traj, len(traj)
 
 
 # ==========================================================================================
@@ -423,15 +440,23 @@ ORDER_N = {'Euler': [64, 128, 256, 512], 'RK4': [16, 32, 64, 128]}
 FLOOR = 1e-11
 
 
-def order_estimate(which, path, name, p, Ns=None):
+def order_estimate(which, path, name, p, Ns=None, frac=0.0):
+    """frac > 0 (solver paths only): proposed step span / (N + frac), which does not divide the interval;
+    the run must still end exactly at tf, after N proposed steps and one shortened step"""
     sysd = make_system(name, p)
     Ns = Ns or ORDER_N[which]
-    integ = integrate_direct if path == 'direct' else integrate_solver
+    integ = {'direct': integrate_direct, 'solver': integrate_solver, 'desolver': integrate_desolver}[path]
     errs = []
+    errs_tf = []
+    tf = sysd['t0'] + sysd['span']
     for N in Ns:
-        t_end, traj, steps = integ(which, sysd, N)
-        if steps != N or abs(t_end - (sysd['t0'] + sysd['span'])) > 1e-9:
-            return {'indeterminate': 'step count %d for N=%d (end time %r)' % (steps, N, t_end)}
+        if path == 'direct':
+            t_end, traj, steps = integ(which, sysd, N)
+        else:
+            t_end, traj, steps = integ(which, sysd, N, frac)
+        want = N + (1 if frac > 0 else 0)
+        if steps != want or abs(t_end - tf) > 1e-9:
+            return {'indeterminate': 'step count %d (expected %d) for N=%d, frac=%r (end time %r)' % (steps, want, N, frac, t_end)}
         if not all(np.all(np.isfinite(y)) for _, y in traj):
             return {'nonfinite': True, 'errs': errs}
         # global error in the maximum norm over the whole trajectory (a single time point can sit on a
@@ -441,7 +466,9 @@ def order_estimate(which, path, name, p, Ns=None):
             ex = sysd['exact'](tt)
             e = max(e, float(np.max(np.abs(y - ex)) / (1 + np.max(np.abs(ex)))))
         errs.append(e)
-    res = {'errs': errs, 'Ns': list(Ns)}
+        ex = sysd['exact'](traj[-1][0])
+        errs_tf.append(float(np.max(np.abs(traj[-1][1] - ex)) / (1 + np.max(np.abs(ex)))))
+    res = {'errs': errs, 'errs_tf': errs_tf, 'Ns': list(Ns), 'frac': frac}
     # only step sizes whose error is clear of round-off enter the estimate; three are needed
     k = len(errs)
     while k > 0 and errs[k - 1] < FLOOR:
@@ -449,10 +476,10 @@ def order_estimate(which, path, name, p, Ns=None):
     if k < 3 or min(errs[:k]) < FLOOR:
         res['floor'] = True                       # (nearly) exact for this system: nothing to measure
         return res
-    lh = np.log(1.0 / np.array(Ns[:k], dtype=float))
+    lh = np.log(1.0 / (np.array(Ns[:k], dtype=float) + frac))
     le = np.log(np.array(errs[:k]))
     res['slope'] = float(np.polyfit(lh, le, 1)[0])
-    res['last'] = float(np.log2(errs[k - 2] / errs[k - 1]))
+    res['last'] = float(np.log(errs[k - 2] / errs[k - 1]) / np.log((Ns[k - 1] + frac) / (Ns[k - 2] + frac)))
     res['used'] = k
     return res
 
@@ -461,15 +488,21 @@ def order_oracle(which, path, name, p, res):
     site = 'RK4Iterator' if which == 'RK4' else 'ExplicitEulerIterator'
     sysd_aut = make_system(name, p)['autonomous']
     cls = 'autonomous' if sysd_aut else 'non-autonomous'
+    frac = res.get('frac', 0.0)
+    if frac > 0:
+        cls += ', step size does not divide the interval'
     if 'indeterminate' in res or res.get('floor'):
         return []
     if res.get('nonfinite'):
         return [('empirical_order', cls, '%s (%s) produced a non-finite value on %s %r' % (site, path, name, p))]
     nom = NOMINAL[which]
     if res['slope'] < nom - 0.75 or res['last'] < nom - 0.75:
+        how = ('N=%s steps' % res['Ns']) if frac == 0 else \
+              ('proposed step span/(N+%g), N=%s, last step shortened by the solver to end at tf' % (frac, res['Ns']))
         return [('empirical_order', cls,
-                 '%s (%s) on %s system %s: errors %s for N=%s steps, observed order %.2f (last halving %.2f), nominal %d'
-                 % (site, path, cls, name, ['%.3g' % e for e in res['errs']], res['Ns'], res['slope'], res['last'], nom))]
+                 '%s (%s) on %s system %s: trajectory-maximum errors %s (errors at tf %s) for %s; observed order %.2f (last refinement %.2f), nominal %d'
+                 % (site, path, cls.split(',')[0], name, ['%.3g' % e for e in res['errs']], ['%.3g' % e for e in res['errs_tf']], how,
+                    res['slope'], res['last'], nom))]
     return []
 
 
@@ -506,6 +539,54 @@ def exact_oracle(c, im, exp):
         return [('exact_quadrature', 'non-autonomous',
                  "%s (%s): one step of size %r on y' = polynomial of degree %d in t from (t=%r, y=%r) gives %r, the exact solution (which a method of order %d reproduces) is %r"
                  % (site, c['path'], c['dt'], deg, c['t'], c['x'][0], float(im['new'][0]), NOMINAL[which], exp))]
+    return []
+
+
+# ---- whole runs through the solver whose last step is cut: any sequence of RK4 (Euler) steps, of any
+#      sizes, integrates y' = cubic(t) (y' = const) exactly, so the state the solver reports at tf is exact
+def gen_exact_run(rng, which, path):
+    deg = 3 if which == 'RK4' else 0
+    a = [float(v) for v in rng.uniform(-2, 2, 4)]
+    for k in range(deg + 1, 4):
+        a[k] = 0.0
+    dy = lambda lo, hi: float(rng.integers(int(lo * 16), int(hi * 16) + 1)) / 16.0
+    return {'kind': 'exact_run', 'iterator': which, 'path': path, 't0': dy(-1, 1), 'span': float(rng.choice([1.0, 2.0])),
+            'y0': [float(rng.uniform(-1, 1))], 'a': a, 'N': int(rng.integers(1, 9)),
+            'frac': float(rng.choice([0.5, 0.9, 0.25, float(rng.uniform(0.05, 0.95))]))}
+
+
+def run_exact_run(c):
+    a = c['a']
+    P = lambda t: a[0] * t + a[1] * t ** 2 / 2 + a[2] * t ** 3 / 3 + a[3] * t ** 4 / 4
+    y0 = np.array(c['y0'], dtype=float)
+    sysd = {'name': 'cubic', 'f': lambda t, y: (a[0] + a[1] * t + a[2] * t * t + a[3] * t ** 3) * np.ones_like(np.asarray(y, dtype=float)),
+            'exact': lambda t: y0 + (P(t) - P(c['t0'])), 't0': c['t0'], 'y0': y0, 'dim': 1, 'span': c['span'], 'autonomous': False}
+    integ = integrate_solver if c['path'] == 'solver' else integrate_desolver
+    out = {'err': None}
+    try:
+        t_end, traj, steps = integ(c['iterator'], sysd, c['N'], c['frac'])
+        out.update(t_end=t_end, steps=steps, y=traj[-1][1] if traj else y0, exact=sysd['exact'](c['t0'] + c['span']),
+                   sizes=[float(traj[0][0] - c['t0'])] + [float(traj[i][0] - traj[i - 1][0]) for i in range(1, len(traj))] if traj else [])
+    except Exception as e:
+        out['err'] = type(e).__name__ + ': ' + str(e)
+    return out
+
+
+def exact_run_oracle(c, im):
+    which = c['iterator']
+    site = 'RK4Iterator' if which == 'RK4' else 'ExplicitEulerIterator'
+    if im['err']:
+        return [('no_internal_error', 'exception', '%s through the solver raised %s' % (site, im['err']))]
+    tf = c['t0'] + c['span']
+    if im['steps'] != c['N'] + 1 or abs(im['t_end'] - tf) > 1e-9:
+        return []          # how many steps the solver takes and where it stops is C05's subject
+    ex = im['exact']
+    if np.max(np.abs(im['y'] - ex)) > 1e-12 * (1 + np.max(np.abs(ex))):
+        deg = 3 if which == 'RK4' else 0
+        return [('exact_quadrature_run', 'last step shortened by the solver',
+                 "%s through %s on y' = polynomial of degree %d in t from (t0=%r, y0=%r) to tf=%r with proposed step %r (%d proposed steps + a last step of %r): state at tf %r, exact %r - every sequence of steps of a method of order %d reproduces it"
+                 % (site, 'GenericModel.solve' if c['path'] == 'solver' else 'DESolver.solve', deg, c['t0'], c['y0'][0], tf, c['span'] / (c['N'] + c['frac']),
+                    c['N'], im['sizes'][-1] if im['sizes'] else None, [float(v) for v in im['y']], [float(v) for v in ex], NOMINAL[which]))]
     return []
 
 
@@ -624,8 +705,10 @@ def evaluate_case(c):
         im, exp = run_exact(c)
         return exact_oracle(c, im, exp)
     if k == 'order':
-        res = order_estimate(c['iterator'], c['path'], c['system'], c['params'])
+        res = order_estimate(c['iterator'], c['path'], c['system'], c['params'], frac=c.get('frac', 0.0))
         return order_oracle(c['iterator'], c['path'], c['system'], c['params'], res)
+    if k == 'exact_run':
+        return exact_run_oracle(c, run_exact_run(c))
     raise ValueError('unknown case kind %r' % k)
 
 
@@ -674,6 +757,16 @@ def _shrinks(c):
         d = dict(c)
         d.update(t=0.0, dt=1.0)
         yield d
+    if c['kind'] == 'exact_run':
+        d = dict(c)
+        d.update(t0=0.0, span=1.0, y0=[0.0], N=1, frac=0.5, a=[0.0, 1.0, 0.0, 0.0] if c['iterator'] == 'RK4' else [1.0, 0.0, 0.0, 0.0])
+        yield d
+        d = dict(c)
+        d.update(t0=0.0, span=1.0, y0=[0.0], N=1, frac=0.5)
+        yield d
+        d = dict(c)
+        d.update(N=1, frac=0.5)
+        yield d
 
 
 def search(ctx, quick, budget=1.0):
@@ -687,12 +780,20 @@ def search(ctx, quick, budget=1.0):
             cases += [gen_step_case(rng, which, path) for _ in range(nstep)]
             cases += [exactness_oracle(which, path, rng) for _ in range(max(4, nstep // 4))]
             cases += [gen_alias_case(rng, which, path) for _ in range(max(4, nstep // 4))]
+        for path in ('solver', 'desolver'):
+            cases += [gen_exact_run(rng, which, path) for _ in range(max(4, nstep // 4))]
     nord = int((3 if quick else 25) * budget)
     for name in SYSTEMS:
         for which in ('Euler', 'RK4'):
             for path in ('direct', 'solver'):
-                for _ in range(max(1, nord)):
-                    cases.append({'kind': 'order', 'iterator': which, 'path': path, 'system': name, 'params': gen_params(rng, name)})
+                for j in range(max(1, nord)):
+                    c = {'kind': 'order', 'iterator': which, 'path': path, 'system': name, 'params': gen_params(rng, name)}
+                    if path == 'solver' and j % 3 != 0:
+                        # proposed step sizes that do not divide the interval: the solver shortens the last step
+                        c['frac'] = [0.0, 0.5, float(rng.uniform(0.05, 0.95))][j % 3]
+                        if rng.random() < 0.5:
+                            c['path'] = 'desolver'
+                    cases.append(c)
     for c in cases:
         try:
             hs = evaluate_case(c)
@@ -703,6 +804,7 @@ def search(ctx, quick, budget=1.0):
         ctx.hist('iterator/path', c['iterator'] + '/' + c.get('path', 'direct'))
         if c['kind'] == 'order':
             ctx.hist('system', c['system'])
+            ctx.hist('order_step_size', 'divides the interval' if c.get('frac', 0.0) == 0 else 'does not divide (last step cut)')
         for h in hs:
             hits.append((c, *h))
     return hits, len(cases)
@@ -713,6 +815,8 @@ def report_hits(ctx, hits):
     for (c, clause, cls, msg) in hits:
         key = (clause, cls, c['iterator'], c.get('path', 'direct') if clause == 'state_unchanged' else '')
         site = 'kawin/solver/Iterators.py:' + ('RK4Iterator' if c['iterator'] == 'RK4' else 'ExplicitEulerIterator')
+        if c['kind'] == 'exact_run' or (c['kind'] == 'order' and c.get('frac', 0.0) > 0):
+            site = 'kawin/solver/Solver.py:DESolver.solve (%s)' % c['iterator']
         if (clause, cls, site) in seen:
             continue
         seen.add((clause, cls, site))
@@ -799,7 +903,7 @@ def run(ctx):
     ctx.cov['rule'] = ('single steps: random t, dt in [1e-3, 1], dimension 1-4, smooth time- and state-dependent right-hand side, raw iterator and '
                        'through GenericModel.solve (state split over several arrays); aliasing right-hand sides (f returns its argument / a persistent '
                        'buffer); exact-quadrature steps; empirical order on 10 systems (3 autonomous, 7 non-autonomous; 6 scalar, 4 vector valued / '
-                       'time-dependent coefficients) with random parameters, 4 step sizes each; translator validation on random polynomial '
+                       'time-dependent coefficients) with random parameters, 4 step sizes each - raw iterator, GenericModel.solve and bare DESolver, with step sizes that divide the interval and (solver paths) step sizes span/(N+frac) that do not, so that the solver shortens the last step; whole runs with a cut last step on exactly integrable right-hand sides; translator validation on random polynomial '
                        'right-hand sides; every case counts as non-trivial; distinct by hash of the exact input')
     # ---- 1. regenerate the model of the code -------------------------------------------------
     tie_ok, info = regenerate(ctx)
